@@ -82,4 +82,30 @@ PROPS = {
             "inotify delivers events in the order the operations happened (sentinel technique, real-watcher cases only)",
         ],
     },
+    "C04": {
+        "modules": ["AmVerif.Props.C04"],
+        "engines": [{"name": "src", "quick": 360, "thorough": 4000}],
+        "rule": "cases 0-199 are the bounded-exhaustive slice: the 20 closed subsets of {a.x, a, d/, d/b.x, d/e/} (empty tree included) x {FileSystem, Embedded, (Zip, Tar) x (every directory has a member, none has) x (directories before / after their content)}, each probed on every node plus a fixed list of absent / wrong-kind ids; later cases: random trees (depth <= 4, unicode / spaces / empty extension / one stem with several extensions / file and directory sharing an id / 200-byte names) through one source kind each (rotating), archive members in sorted / reversed / files-first / shuffled order, all / none / some directory members, optional ./ prefix, stored or deflated, in memory or file backed, GNU long names, 1/8 with malformed members (.., absolute, dotted directory, duplicates, hidden, trailing dot); probes: read / read_dir / exists of every node, absent ids (wrong extension, directory as file, file as directory, below a file, empty components), re-read of every listed entry, 1/6 with 4 (thorough 8) concurrent readers; a case is non-trivial when at least one probe ran; distinct = distinct op transcripts",
+        "trusted": COMMON_TRUSTED + [
+            "modelled, not verified: HashMap as a partial function, Vec as a list, Path::components / file_stem / extension (std) as splitSlash / splitExt, the zip and tar container decoders (the model starts at the member list: path, kind, bytes), the OS file system as a map from paths to file / directory nodes with ENOTDIR when a path goes through a file, IdBuilder as idPush / idPop",
+            "the embed! macro's directory walk is modelled by its output tables only (RawEmbedded is built from the tree at run time by the harness)",
+        ],
+        "assumptions": [
+            "tree names are valid: non-empty, no '.', no '/', no NUL; extensions contain no '.'; an extension-less file and a directory do not share a name",
+            "probe ids for the oracle are well formed (no empty component); ids with empty components are compared against the model only",
+            "no sibling <root>.<ext> of the FileSystem root exists (read(\"\", ext) leaves the root)",
+        ],
+    },
+    "C11": {
+        "modules": ["AmVerif.Props.C11"],
+        "engines": [{"name": "dir", "quick": 300, "thorough": 3000}],
+        "rule": "cases 0-79: the 20 small trees of C04 x the four source kinds (archives with and without directory members), 10 loads each over 5 extension lists; later cases: random trees as in C04 through one source kind each, 1/4 with one or two unreadable directories (read_dir fails with PermissionDenied), 6-16 ops drawn from load_dir / load_rec_dir (plain and Arc<T>) / iter / iter_cached after loading a random asset, over 7 asset types with extension lists [], [\"\"], [x], [a,b], [a,b,c], [x,\"\"], [b,a,x], on random directories, the root, missing ids and file ids; a case is non-trivial when at least one load ran; distinct = distinct op transcripts",
+        "trusted": COMMON_TRUSTED + [
+            "modelled, not verified: sort_unstable + dedup as insertion into a strictly sorted list, the asset cache as 'load succeeds iff some extension can be read' (loader = identity on bytes), the source views of C04",
+        ],
+        "assumptions": [
+            "read_dir is deterministic for the lifetime of the cache (Directory and RecursiveDirectory read the same listing)",
+            "the directory graph is finite and acyclic (recLoad is fuelled; the driver uses fuel 64)",
+        ],
+    },
 }
